@@ -125,6 +125,17 @@ def subst(s, new, old):
         return ('Q', s[1], s[2], subst(s[3], new, old))
     return ('O', s[1], tuple(subst(c, new, old) for c in s[2]))
 
+def subst_map(s, mp):
+    "Simultaneously replace every parameter p by mp.get(p, p)."
+    t = s[0]
+    if t == 'A':
+        return s
+    if t == 'P':
+        return ('P', s[1], tuple(mp.get(p, p) for p in s[2]))
+    if t == 'Q':
+        return ('Q', s[1], s[2], subst_map(s[3], mp))
+    return ('O', s[1], tuple(subst_map(c, mp) for c in s[2]))
+
 def instantiate(s, c):
     assert s[0] == 'Q'
     return subst(s[3], c, s[2])
